@@ -22,38 +22,38 @@ def _body(f: FunctionInfo) -> List[ast.stmt]:
 
 
 def key_chooser(ctx: Ctx) -> None:
-    """C18.1: get / set / delete act on the result of one key chooser; it returns the alias exactly when the
-    standard key is absent and the alias is present."""
+    """C18.1: get / set / delete act on one key: the alias exactly when the standard key is absent and the alias is present."""
     p = ctx.p
     ip = p.func(PROP)
     name, alias = ip.param_names()[:2]
-    na = ip.nested.get("_name_or_alias")
-    require(na is not None, "item_property._name_or_alias not found")
-    s = na.param_names()[0]
-    from ..decide import decisions, judge_table
-
-    def outcome(d):
-        k, v = d.terminal()
-        return ast.unparse(v) if (k == "return" and v is not None) else k
-
-    judge_table(ctx, "R-TABLE", na, "the alias is chosen exactly when the standard key is absent and the alias is present", decisions(ctx, na),
-                [f"{name} in {s}", alias, f"{alias} in {s}"],
-                lambda a: alias if ((not a[f"{name} in {s}"]) and a[alias] and a[f"{alias} in {s}"]) else name, outcome)
+    from .tables import function_decs, judge, sums_of
     accs = {"get": ip.nested.get("item_property"), "set": ip.nested.get("item_property@setter"), "del": ip.nested.get("item_property@deleter")}
     for k, f in accs.items():
         require(f is not None, f"item_property accessor '{k}' not found")
-    g, st, dl = accs["get"], accs["set"], accs["del"]
-    gb, sb, db = _body(g), _body(st), _body(dl)
-    okg = len(gb) == 1 and isinstance(gb[0], ast.Return) and matches("$s.get(_name_or_alias($s))", gb[0].value) and ast.unparse(match("$s.get(_name_or_alias($s))", gb[0].value)["s"]) == g.param_names()[0]
-    ctx.expect("R-CLONE", g, "reading the attribute returns mapping.get(<chosen key>) (None when absent)", okg, "", "; ".join(ast.unparse(x) for x in gb), node=g.node)
-    oks = len(sb) == 1 and isinstance(sb[0], ast.Assign) and matches("$s[_name_or_alias($s)]", sb[0].targets[0]) and isinstance(sb[0].value, ast.Name) and sb[0].value.id == st.param_names()[1] \
-        and ast.unparse(sb[0].targets[0].value) == st.param_names()[0]
-    ctx.expect("R-CLONE", st, "assigning the attribute stores under the chosen key", oks, "", "; ".join(ast.unparse(x) for x in sb), node=st.node)
-    okd = len(db) == 1 and isinstance(db[0], ast.Delete) and len(db[0].targets) == 1 and matches("$s[_name_or_alias($s)]", db[0].targets[0]) and ast.unparse(db[0].targets[0].value) == dl.param_names()[0]
-    ctx.expect("R-CLONE", dl, "deleting the attribute deletes the chosen key (KeyError when absent)", okd, "", "; ".join(ast.unparse(x) for x in db), node=dl.node)
+
+    def effect_of(kind: str, f: FunctionInfo):
+        def out(s_):
+            eff = [e for e in s_.effects if e.kind in ("store", "delete", "return", "raise", "expr", "aug", "yield")]
+            return tuple(e.text for e in eff)
+        return out
+
     for k, f in accs.items():
-        cs = [c for c in calls(f) if callee(ctx, f, c) is na]
-        ctx.expect("R-CLONE", f, f"'{k}' uses the shared key chooser once", len(cs) == 1, "", f"{len(cs)} call(s) of _name_or_alias", node=f.node)
+        s = f.param_names()[0]
+        A, B, C = f"{name} in {s}", alias, f"{alias} in {s}"
+        chosen = lambda a: alias if ((not a[A]) and a[B] and a[C]) else name
+        if k == "get":
+            spec = lambda a, s=s: (f"return {s}.get({chosen(a)})",)
+            title = "reading the attribute returns mapping.get(<chosen key>) (None when absent); the alias is chosen exactly when the standard key is absent and the alias is present"
+        elif k == "set":
+            v = f.param_names()[1]
+            spec = lambda a, s=s, v=v: (f"{s}[{chosen(a)}] = {v}",)
+            title = "assigning the attribute stores under the chosen key (the alias exactly when the standard key is absent and the alias is present)"
+        else:
+            spec = lambda a, s=s: (f"delete {s}[{chosen(a)}]",)
+            title = "deleting the attribute deletes the chosen key (KeyError when absent)"
+        decs = function_decs(sums_of(ctx, f), effect_of(k, f))
+        judge(ctx, "R-TABLE" if k == "get" else "R-CLONE", f, title, decs, [A, B, C], spec, equiv={f"{alias} is None": (B, False)},
+              why="all three accessors must agree on the key: 'name' unless it is absent and the alias is present")
     rr = [r for r in body_walk(ip.node) if isinstance(r, ast.Return)]
     ctx.expect("R-CLONE", ip, "item_property returns the property object with all three accessors", len(rr) == 1 and ast.unparse(rr[0].value) == "item_property", "", "", node=ip.node)
     decos = {k: f.decorators() for k, f in accs.items()}
@@ -138,27 +138,25 @@ def smchart_guards(ctx: Ctx) -> None:
 def equality(ctx: Ctx) -> None:
     """C18.5: equality reads exactly the mapping's content (and the charts)."""
     p = ctx.p
+    from .tables import function_decs, judge, sums_of, terminal_text
+
+    def predicate_table(f: FunctionInfo, atoms, title):
+        decs = function_decs(sums_of(ctx, f, bool_returns=True))
+        judge(ctx, "R-TABLE", f, title, decs, atoms, lambda a: "return True" if all(a.values()) else "return False")
+
     f = p.func("simfile.base:BaseSimfile.__eq__")
     s, o = f.param_names()
-    rr = [r for r in body_walk(f.node) if isinstance(r, ast.Return)]
-    ok = False
-    if len(rr) == 1 and isinstance(rr[0].value, ast.BoolOp) and isinstance(rr[0].value.op, ast.And):
-        parts = sorted(ast.unparse(v) for v in rr[0].value.values)
-        ok = parts == sorted([f"type({s}) is type({o})", f"OrderedDict.__eq__({s}, {o})", f"{s}.charts == {o}.charts"])
-    ctx.expect("R-TABLE", f, "simfile equality = same type and same ordered mapping and same charts", ok, "", f"{src(rr[0].value) if rr else ''}", node=f.node)
+    predicate_table(f, [f"type({s}) is type({o})", f"OrderedDict.__eq__({s}, {o})", f"{s}.charts == {o}.charts"], "simfile equality = same type and same ordered mapping and same charts")
     ne = p.func("simfile.base:BaseSimfile.__ne__")
-    rr = [r for r in body_walk(ne.node) if isinstance(r, ast.Return)]
-    ctx.expect("R-TABLE", ne, "!= is the negation of ==", len(rr) == 1 and ast.unparse(rr[0].value) == f"not {ne.param_names()[0]}.__eq__({ne.param_names()[1]})", "", "", node=ne.node)
+    s2, o2 = ne.param_names()
+    decs = function_decs(sums_of(ctx, ne, bool_returns=True))
+    judge(ctx, "R-TABLE", ne, "!= is the negation of ==", decs, [f"{s2}.__eq__({o2})"], lambda a: "return False" if a[f"{s2}.__eq__({o2})"] else "return True",
+          equiv={f"{s2} == {o2}": (f"{s2}.__eq__({o2})", True)})
     ce = p.func("simfile.sm:SMChart.__eq__")
     s, o = ce.param_names()
-    rr = [r for r in body_walk(ce.node) if isinstance(r, ast.Return)]
-    ok = False
-    if len(rr) == 1 and isinstance(rr[0].value, ast.BoolOp) and isinstance(rr[0].value.op, ast.And):
-        parts = sorted(ast.unparse(v) for v in rr[0].value.values)
-        desc = p.descriptors(p.cls("simfile.sm.SMChart"))
-        fields = [a for a, d in desc.items() if d.key in p.const("simfile.sm", "SM_CHART_PROPERTIES")]
-        ok = parts == sorted([f"type({s}) is type({o})"] + [f"{s}.{a} == {o}.{a}" for a in fields])
-    ctx.expect("R-TABLE", ce, "SM chart equality = same type and the six fields equal", ok, "", "", node=ce.node)
+    desc = p.descriptors(p.cls("simfile.sm.SMChart"))
+    fields = [a for a, d in desc.items() if d.key in p.const("simfile.sm", "SM_CHART_PROPERTIES")]
+    predicate_table(ce, [f"type({s}) is type({o})"] + [f"{s}.{a} == {o}.{a}" for a in fields], "SM chart equality = same type and the six fields equal")
     for cls in ("simfile.ssc.SSCChart", "simfile.ssc.SSCSimfile", "simfile.sm.SMSimfile"):
         ci = p.cls(cls)
         ctx.expect("R-TABLE", ci, f"{ci.name} does not override mapping access", not ({"__getitem__", "__setitem__", "__delitem__", "get", "__contains__", "__iter__", "keys", "items", "values", "__eq__"} & set(ci.methods)),
